@@ -201,7 +201,7 @@ def run(ck):
         seen.add(key)
         ck.report(dict(input=lines[i], variant=cases[i][1], implementation=iout[i][:3000], model=mo[i][:3000]), oracle=key, key="geometry:" + key,
                   what="cell geometry violates " + fmsg)
-    if broken and not fails:
+    if broken and not ck.violations:
         i = broken[0]
         ck.report(dict(input=lines[i], variant=cases[i][1], implementation=iout[i][:3000], model=mo[i][:3000], n_disagreements=len(broken)),
                   unchecked="correspondence Geometry.v(NumF) = initialize_cell_properties + getters",
